@@ -500,7 +500,7 @@ class Runner:
         def mk(sem):
             if sem == 0:
                 return lambda cls: _default_is_leaf(cls)
-            return lambda cls: issubclass(cls, torch.Tensor)   # non-tensor entries are no leaves
+            return lambda cls: not issubclass(cls, TensorDict)   # non-tensor entries are leaves too
         ps = "/".join(p)
         tw = rebuild_unlocked(n)
         out = "no-reuse"
